@@ -141,6 +141,9 @@ func c15MsgCheck(t vh.Fataler, rec *vh.Rec, c c15MsgCase) {
 		return
 	}
 	classes := []string{}
+	if c.Nested == 127 {
+		classes = append(classes, "nested=127")
+	}
 	if c.Nested >= 12 {
 		classes = append(classes, "nested>=12")
 	} else if c.Nested >= 2 {
@@ -331,9 +334,9 @@ func c15MsgGen(rt *rapid.T) c15MsgCase {
 }
 
 func TestVerif_C15_messages(t *testing.T) {
-	rec := vh.NewRec("C15", "messages", "rapid: messages of 0-40 entries spread over the four sections; names are 0-3 labels from a pool of 1-5 labels in front of a suffix of a common base (shared suffixes => compression pointers), case-flipped copies of earlier names, the root, or nested chains name_k = label+name_(k-1) of up to 40 links; types/classes/TTLs from boundary values; RDATA of 0/1/4/17/255/256 bytes and rarely 16400 (later names sit beyond the 14-bit pointer range), 65535 or 65536 bytes. Oracle: WireFormat returned an error, or MessageFromWireFormat(WireFormat(m)) == m field by field. Non-trivial = at least one compression pointer was emitted (wire size < uncompressed size) or an RDATA beyond 65535; distinct by case")
+	rec := vh.NewRec("C15", "messages", "nested chains of every depth 2-127 (enumerated), then rapid: messages of 0-40 entries spread over the four sections; names are 0-3 labels from a pool of 1-5 labels in front of a suffix of a common base (shared suffixes => compression pointers), case-flipped copies of earlier names, the root, or nested chains name_k = label+name_(k-1) of up to 40 links; types/classes/TTLs from boundary values; RDATA of 0/1/4/17/255/256 bytes and rarely 16400 (later names sit beyond the 14-bit pointer range), 65535 or 65536 bytes. Oracle: WireFormat returned an error, or MessageFromWireFormat(WireFormat(m)) == m field by field. Non-trivial = at least one compression pointer was emitted (wire size < uncompressed size) or an RDATA beyond 65535; distinct by case")
 	defer rec.Flush()
-	rec.Require("ok", "compressed", "nested<12", "nested>=12", "rdlength>65535", "message>16383")
+	rec.Require("ok", "compressed", "nested<12", "nested>=12", "nested=127", "rdlength>65535", "message>16383")
 	if p := vh.ReplayFile(); p != "" {
 		var c c15MsgCase
 		if _, _, err := vh.LoadReplay(p, &c); err != nil {
@@ -341,6 +344,25 @@ func TestVerif_C15_messages(t *testing.T) {
 		}
 		c15MsgCheck(t, rec, c)
 		return
+	}
+	// enumerated first: nested chains of every depth a 255-octet name allows (one-byte labels:
+	// name_k has k labels and is written as one label plus a pointer to name_(k-1))
+	for depth := 2; depth <= 127; depth++ {
+		if !vh.Mine(depth) {
+			continue
+		}
+		c := c15MsgCase{ID: uint16(depth), Flags: 0x8400, Nested: depth}
+		var n []vh.Hex
+		for k := 0; k < depth; k++ {
+			n = append([]vh.Hex{{byte('a' + k%26)}}, n...)
+			r := c15RR{Name: append([]vh.Hex{}, n...), Type: 16, Class: 1, TTL: 60, DataLen: 1}
+			if k == 0 {
+				c.Q = append(c.Q, r)
+			} else {
+				c.An = append(c.An, r)
+			}
+		}
+		c15MsgCheck(t, rec, c)
 	}
 	rapid.Check(t, func(rt *rapid.T) { c15MsgCheck(rt, rec, c15MsgGen(rt)) })
 }
